@@ -173,6 +173,9 @@ def run_path_c10(menu, path, is_leaf, alias=None):
     tkey, lkey = tracks.features.tracklet_key, tracks.features.lineage_key
     recomputed = set()
     was_off = False
+    # features whose values on the graph were handed in stale with a pre-built FeatureDict: they
+    # are only held to the reference values after an explicit enable (= recomputation)
+    unverified = set(w.get("stale", ()))
 
     def _vio(prop, clause, detail, menu, path, phase="seq", tag=""):  # noqa: ARG001
         nonlocal was_off
@@ -216,6 +219,7 @@ def run_path_c10(menu, path, is_leaf, alias=None):
                     return True, vio, tagl
                 if ev[0] == "enable":
                     enabled |= set(keys)
+                    unverified -= set(keys)
                     recomputed |= set(keys) & {tkey, lkey}
                 else:
                     enabled -= set(keys)
@@ -259,7 +263,7 @@ def run_path_c10(menu, path, is_leaf, alias=None):
                             break
             # enabled features hold the reference values
             if not dead:
-                vals = _enabled_values_ok(tracks, cfg, enabled)
+                vals = _enabled_values_ok(tracks, cfg, enabled, unverified)
                 for clause, detail in vals[:2]:
                     vio.append(_vio("C10", clause, detail + f" (enabled: {sorted(enabled)})", menu, path,
                                     tag="after-" + ev[0]))
@@ -282,7 +286,7 @@ def _raw_values(tracks, keys):
     return out
 
 
-def _enabled_values_ok(tracks, cfg, enabled):
+def _enabled_values_ok(tracks, cfg, enabled, unverified=()):
     bad = []
     f = tracks.features
     if f.tracklet_key in enabled:
@@ -293,7 +297,7 @@ def _enabled_values_ok(tracks, cfg, enabled):
         bad += [("enabled-lookups-wrong", f"{c}: {d}") for c, d in oracles.inv_c06(tracks, queries=False)
                 if c.startswith("track") or (c.startswith("lineage") and f.lineage_key in enabled)]
     if tracks.segmentation is not None:
-        bad += [("enabled-regionprops-wrong", f"{c}: {d}") for c, d in oracles.inv_c08(tracks, differential=True)]
+        bad += [("enabled-regionprops-wrong", f"{c}: {d}") for c, d in oracles.inv_c08(tracks, differential=True, skip=unverified)]
         bad += [("enabled-iou-wrong", f"{c}: {d}") for c, d in oracles.inv_c09(tracks, bulk=False)]
     return bad
 
